@@ -17,7 +17,10 @@ Inductive case :=
 | CFold (n : nat) (batches : list (nat * list (elem Z))) (out : list (elem (list Z)))
 | CKeyed (n : nat) (m : Z) (batches : list (nat * list (elem Z))) (out : list (elem (Z * list Z)))
 | CGlobalSum (n : nat) (batches : list (nat * list (elem (Z * Z)))) (out : list (elem (Z * Z)))
-| CRich (m : Z) (input : list (elem Z)) (out : list (elem (Z * (Z * Z)))).
+| CRich (m : Z) (input : list (elem Z)) (out : list (elem (Z * (Z * Z))))
+(* a whole job through ONE aggregation entry point of the public API (form), on local(par),
+   observed through one kind of sink; data = (key, value) pairs, out sorted by the harness *)
+| CAggJob (form sink : N) (par : Z) (data : list (Z * Z)) (out : list (Z * Z)).
 
 Definition push (b : list Z) (x : Z) : list Z := b ++ [x].
 
@@ -53,6 +56,7 @@ Definition corr_ok (c : case) : bool :=
   | CRich m input out =>
       list_eqb (elem_eqb (pair_eqb Z.eqb (pair_eqb Z.eqb Z.eqb)))
         (run (rich_map_machine 0 rich_f) (run (key_by_machine (key_mod m)) input)) out
+  | CAggJob _ _ _ _ _ => true   (* whole job: the sequential meaning is the specification, see prop_ok *)
   end.
 
 (** ---- the property on the implementation output, from the delivered input alone ---- *)
@@ -118,6 +122,30 @@ Definition sum_round_ok (din : list (elem (Z * Z))) (dout : list (elem (Z * Z)))
     | _ => false
     end) keys.
 
+(** ** sequential meaning of the aggregation entry points (whole jobs) *)
+Definition vals_for (k : Z) (d : list (Z * Z)) : list Z :=
+  map snd (filter (fun p => Z.eqb (fst p) k) d).
+Definition zsum (l : list Z) : Z := fold_left Z.add l 0.
+Definition zmax (l : list Z) : Z := match l with [] => 0 | x :: l' => fold_left Z.max l' x end.
+Definition zmin (l : list Z) : Z := match l with [] => 0 | x :: l' => fold_left Z.min l' x end.
+Definition agg_spec (form : N) (d : list (Z * Z)) : list (Z * Z) :=
+  let keys := sort_by (fun k => k) (dedup_Z (map fst d)) in
+  let per (f : list Z -> Z) := map (fun k => (k, f (vals_for k d))) keys in
+  let one (f : list Z -> Z) := match d with [] => [] | _ => [(0, f (map snd d))] end in
+  match form with
+  | 0%N | 1%N => one zsum                 (* fold, fold_assoc *)
+  | 2%N | 3%N => one zmax                 (* reduce, reduce_assoc *)
+  | 4%N | 6%N | 8%N | 11%N => per zsum        (* group_by_fold, group_by_sum, group_by_avg x count, group_by().fold *)
+  | 5%N | 10%N => per zmax                (* group_by_reduce, group_by_max_element *)
+  | 7%N => per (fun l => Z.of_nat (length l))   (* group_by_count *)
+  | 9%N | 12%N => per zmin                (* group_by_min_element, group_by().reduce *)
+  | _ => map (fun v => (0, v)) (sort_by (fun v => v) (dedup_Z (map snd d)))   (* unique_assoc *)
+  end.
+Definition agg_job_ok (form sink : N) (d out : list (Z * Z)) : bool :=
+  if N.eqb sink 4 then   (* collect_count: the sink yields the NUMBER of results *)
+    list_eqb (pair_eqb Z.eqb Z.eqb) out [(0, Z.of_nat (length (agg_spec form d)))]
+  else list_eqb (pair_eqb Z.eqb Z.eqb) out (agg_spec form d).
+
 Definition prop_ok (c : case) : bool :=
   match c with
   | CFold n bs out =>
@@ -139,6 +167,7 @@ Definition prop_ok (c : case) : bool :=
                                       | Some (k', vc) => if Z.eqb k k' then [vc] else []
                                       | None => [] end) out in
         list_eqb (pair_eqb Z.eqb Z.eqb) got (combine mine (map Z.of_nat (seq 1 (length mine))))) keys
+  | CAggJob form sink _ d out => agg_job_ok form sink d out
   end.
 
 Definition known_class (c : case) : N := 0%N.
